@@ -9,6 +9,7 @@
 import panics
 import vetted
 import common
+from lib import aggregates
 from props import C13
 
 LEVEL = "other"
@@ -48,6 +49,55 @@ def run(ck, F, E):
     C13.range_rule(ck, F, "C05")
     C13.errpos_rules(ck, F, "C05")
     C13.same_text_rule(ck, F, "C05")
+    mappable_errors(ck, F)
+
+
+def mappable_errors(ck, F):
+    """"every diagnostic can be mapped to a source position ... within that line's bounds".  An error diagnostic is mappable when
+    its error is a tokenization error (position inside the line) or carries the location analysis gave it; and a tokenization
+    position is only meaningful for a line registered in the source map with its real length.  So, over the functions of
+    SourceFileAnalyzer: (1) no DiagnosticMessage::Error is built around an error value constructed on the spot (an
+    `InterpreterError::X.into()` has neither position nor location: map_to_source returns None and the LSP drops it);
+    (2) no trip round the per-line loop both registers the line as empty (`add_empty`, length 0) and reports an Error for it
+    (an unterminated string at byte 6 of such a line maps to the range 6..0)."""
+    from lib import iteration_paths, path_records, with_closures
+    SA = "analyzer::source_file_analyzer::SourceFileAnalyzer"
+    fns = [b for p, b in F.bodies.items() if b.crate == "abasic_core" and SA + "::" in p and "::tests" not in p]
+    makers = set()
+    n = 0
+    bad1 = []
+    for b in fns:
+        for (bb, i, pl, rv, sp) in aggregates(b, "diagnostic_message::DiagnosticMessage", "Error"):
+            n += 1
+            makers.add(b.path.split("::{closure")[0])
+            e = b.expr(rv["ops"][1], depth=30) if len(rv["ops"]) > 1 else ("?",)
+            txt = repr(e)
+            built = [x for x in ("interpreter_error::InterpreterError", "interpreter_error::OutOfMemoryError", "syntax_error::SyntaxError")
+                     if "('agg', 'abasic_core::%s'" % x in txt]
+            if built:
+                bad1.append("%s builds the error itself (%s)" % (b.path.split("::")[-1], built[0].split("::")[-1]))
+    ck.floor("C05.error diagnostics constructed by the analyzer", n, 2)
+    ck.require(not bad1, "C05:DIAG:errors-carry-a-position", "mappable diagnostics",
+               "every Error diagnostic wraps an error produced by the tokenizer or by analysis (which locates it)",
+               "an Error diagnostic is built around an error value made on the spot (%s): it has neither a tokenization position nor a "
+               "location, so it cannot be mapped to a source range" % "; ".join(sorted(set(bad1))))
+    run_ = F.one("SourceFileAnalyzer::run")
+    if run_ is not None:
+        bad2 = 0
+        trips = 0
+        for r in path_records(run_, paths=iteration_paths(run_)):
+            names = [c.callee for c in r["calls"]]
+            if not any(x.endswith("SourceFileMap::add_empty") for x in names):
+                continue
+            trips += 1
+            direct = any(a[0].endswith("DiagnosticMessage") and a[1] == "Error" for a in r["aggs"])
+            via = any(x in makers and x != run_.path for x in names)
+            if direct or via:
+                bad2 += 1
+        ck.require(trips > 0 and bad2 == 0, "C05:DIAG:no-error-for-an-unmapped-line", "mappable diagnostics",
+                   "%d trip(s) of the per-line loop register the line as empty; none reports an Error for it" % trips,
+                   "SourceFileAnalyzer::run registers a file line as empty (length 0) and reports an Error for it in the same trip "
+                   "(%d of %d): a tokenization error at byte k of that line maps to the range k..0" % (bad2, trips), run_.span)
 
 
 def run_thorough(ck, F, E):
